@@ -5,6 +5,8 @@ use log::{trace, warn};
 use proptest_derive::Arbitrary;
 
 mod signals;
+#[cfg(feature = "verif-hooks")]
+pub mod verif;
 
 use super::{
     AluInput, AluOutput, Bus, Instruction, InstructionRegister, MicroprogramRam, Register,
@@ -267,11 +269,17 @@ impl RawMachine {
 
     /// Emulate a rising CLK edge.
     pub fn trigger_clock_edge(&mut self) {
+        #[cfg(feature = "verif-hooks")]
+        verif::on_edge_enter();
         if self.state != State::Running {
             trace!("Ignoring clock. Machine halted.");
+            #[cfg(feature = "verif-hooks")]
+            verif::on_edge_exit(self, verif::EdgeKind::Ignored);
             return;
         } else if let Some(MemoryWait) = self.pending_wait_for_memory.take() {
             trace!("Skipping clock. Waiting for memory.");
+            #[cfg(feature = "verif-hooks")]
+            verif::on_edge_exit(self, verif::EdgeKind::WaitSkipped);
             return;
         }
         trace!("");
@@ -285,6 +293,8 @@ impl RawMachine {
             .write_to_memory();
         trace!("----- End of clock cycle -------");
         trace!("");
+        #[cfg(feature = "verif-hooks")]
+        verif::on_edge_exit(self, verif::EdgeKind::Executed);
     }
 
     /// Check the stackpointer.
